@@ -115,3 +115,27 @@ SCALE_NOTE = " In addition to the small-scope product, scale scenarios take each
 for _pid in ["C01", "C02", "C03", "C05", "C06", "C08", "C09", "C10", "C12", "C13", "C14", "C19"]:
     _r, _t, _n, _k = CLAIMED[_pid]
     CLAIMED[_pid] = (_r, _t + SCALE_NOTE, _n, _k)
+
+# what the later detection experiments (rounds 6-9, mutation campaign) added, per property
+LATER = {
+    "C01": "Serialising is repeated and must give the same bytes and leave the packet unchanged.",
+    "C03": "The standalone views also serialise into a destination of exactly MarshalSize() bytes.",
+    "C04": "A further scenario serialises a parsed packet back into the buffer it was parsed from (its extension values and payload are views into the destination; padding filler zero or non-zero).",
+    "C05": "Legacy start states come for the profiles {0x1234, 0x1001, 0x100F, 0xBEDF, 0x0000}.",
+    "C06": "Payload lengths also relative to the budget left after the abs-send-time extension (the last fragment fills its packet); an unrelated second packetizer is interleaved in the long-sequence scenario.",
+    "C07": "In the start-value sweep a second sequencer is used alternately for odd start values.",
+    "C08": "Steady streams: up to 4200 distinct equal-sized inputs per instance for every power of two 1..4096; inputs are handed over inside guarded arrays (sentinels before, behind and in the spare capacity); every truncation of the VP9 headers of all profiles.",
+    "C09": "Wide structures: every N_G 0..255, aggregation packets of up to 300 units, OBUs around 2^21 bytes, each at truncations, into fresh and used receivers; inputs in guarded arrays.",
+    "C10": "Every legal NAL body of up to 7 (8) bytes over {00,01,03,FF}; long sequences include lone SPS / PPS; an unrelated second payloader and depacketizer are interleaved in the wide scenario.",
+    "C11": "An unrelated second payloader and calls with empty input are interleaved in the picture-id sweep.",
+    "C12": "Frames of 65535..140000 bytes with aperiodic content; an unrelated second payloader is interleaved.",
+    "C13": "OBUs of 2^21-2..2^21+1 bytes; an unrelated second depacketizer / assembler is interleaved in the wide scenario.",
+    "C14": "Units of 20000-65000 bytes at MTUs up to 65535; every legal NAL body of up to 6 (7) bytes over {00,01,03,FF}; the four structure decoders are also called directly; an unrelated second payloader is used first in the wide scenario.",
+    "C15": "Frame shapes include FU-A trains whose start, middle or end fragment carries no payload octets.",
+    "C17": "AbsCaptureTime decode sequences of 2-4 inputs on one receiver, the caller keeping and re-reading every decoded value; the caller also adjusts decoded offsets in place.",
+    "C18": "Sweeps: every whole second to 8191 s, whole minutes to 2^31 s, a logarithmic grid with 16 mantissas per octave, every whole hour 1970-2036, delays in 125 ms steps.",
+    "C19": "Every temporal-layer count vector in {1..4}^L for L <= 8 active layers; resolution fields are compared also when the allocation carries none.",
+}
+for _pid, _txt in LATER.items():
+    _r, _t, _n, _k = CLAIMED[_pid]
+    CLAIMED[_pid] = (_r, _t + " Added later (DESIGN.md 5.22): " + _txt, _n, _k)
